@@ -29,16 +29,20 @@ RULE = ("real files in a fresh temporary directory. (rt) 3-d fields, 1-5 compone
         "model's reader; (foreign) files from the harness's own OVF 1.0/2.0 writer (big/little endian, text in OOMMF and mumax "
         "style, shuffled headers) and the shipped samples; (fault) EVERY truncation point of small bin4/bin8 files and EVERY "
         "single-byte corruption of the check value, plus random ones of larger files; (malformed) bad representation, ndim != 3, "
-        "mixed units, missing keys, inconsistent node counts, bad extensions. non-trivial = at least two axes with >= 2 cells "
+        "mixed units, missing keys, inconsistent node counts, bad extensions; (sep) units outside the header grammar (white space, ':', "
+        "'None', '') must round-trip like any unit (open finding D25); labels are identifier-like (word characters incl. underscores, "
+        "non-ASCII letters), labels with other punctuation are an unflagged observation; extend_scalar=True on vector fields must "
+        "behave like extend_scalar=False (D24, fixed). non-trivial = at least two axes with >= 2 cells "
         "and non-constant data, or a damaged/foreign file")
 TRUSTED = ["harness/c09.py (independent OVF reader/writer, generators, comparators) + driver JSON glue",
            "Python repr/float/int and pandas csv writer/reader are the fmt/parse pair (header numbers, text payload)",
            "struct / numpy.tobytes / numpy.fromfile are the byte codecs; the model's IEEE-754 codec on rationals is "
            "validated bit for bit against them on every run",
            "json round trip of the side-car file"]
-ASSUMPTIONS = ["labels consist of word characters (regex \\w), units contain no white space and no ':' and are not the "
-               "literal 'None' (other strings are outside the header grammar; recorded as observations)",
-               "extend_scalar=True is claimed for one-component fields (for vector fields see finding D24)",
+ASSUMPTIONS = ["labels are attribute names (field.<label>): word characters incl. '_' and non-ASCII letters; labels with other "
+               "punctuation ('-', '.', '{', ',', '+') are outside the property's reading and only recorded as observations",
+               "units that contain white space or ':' or equal 'None' or '' come back changed: open finding D25, flagged by the "
+               "oracle; every other unit string is demanded to round-trip",
                "subregions are exercised on dyadic meshes of moderate scale (alignment at extreme scales is C14 / D18)",
                "D19 (short data block still followed by the footer) is outside the quantifier: observed, not flagged"]
 UNPROVED = ["bit identity for bin8 / float32 rounding for bin4 / 1e-9 for text: structural part proved on abstract value "
@@ -444,7 +448,7 @@ def cases(rng, tier):
         c["kind"] = "trunc_rt"
         c["frac"] = rng.random()
         yield c
-    # ---- D19 observation, D24 stream, separator observations
+    # ---- D19 observation, D24 regression stream (extend_scalar on vector fields), separator stream
     for spec in SMALL_FILES[:2]:
         for k in range(1, 4):
             yield dict(kind="obs_d19", file=spec, short=k)
@@ -452,9 +456,10 @@ def cases(rng, tier):
         for nv in [2, 3]:
             yield gen_rt(rng, nvdim=nv, extend=True, rep=rep, regime="exact", vals="int")
     for labels in [["a-b", "c", "d"], ["a.b", "c", "d"], ["{a}", "b", "c"], ["a", "b", "c,d"], ["a+", "b", "c"]]:
-        yield dict(kind="obs_sep", labels=labels, unit="T", sub=rng.getrandbits(32))
-    for unit in ["A / m", "None", "", "m:s"]:
-        yield dict(kind="obs_sep", labels=None, unit=unit, sub=rng.getrandbits(32))
+        yield dict(kind="sep", labels=labels, unit="T", nvdim=3, rep="bin8", sub=rng.getrandbits(32))
+    for unit in ["A / m", "None", "", "m:s", "kg m", "a\tb", "T:"]:
+        for nv, rep in ((3, "bin8"), (1, "txt"), (2, "bin4")):
+            yield dict(kind="sep", labels=None, unit=unit, nvdim=nv, rep=rep, sub=rng.getrandbits(32))
     # ---- labels / units through small files
     for labs in WORD_LABELS:
         for nv in (2, 3, 4, 5):
@@ -649,13 +654,6 @@ def run_rt(case, obs, fail):
                 obs["tread"] = st2
                 if st2 == "ok":
                     fail(f"binary file cut at byte {t} of {len(raw)} (data block ends at {end}) was read into a field")
-    if extend and nv > 1:
-        # finding D24: the writer's extend_scalar branches forget the one-component condition
-        if obs["write"] == "err":
-            fail(f"extend_scalar=True with a {nv}-component field: to_file({rep}) raises {obs.get('write_exc')}")
-        elif obs["read"] != "ok":
-            fail(f"extend_scalar=True with a {nv}-component field: the written {rep} file cannot be read back ({g})")
-        return
     if obs["write"] != "ok":
         fail(f"to_file raised {obs.get('write_exc')} for a valid 3-d field ({rep}, extend_scalar={extend})")
         return
@@ -866,21 +864,27 @@ def run_impl(case):
         else:
             obs["tags"].append(f"obs:D19:{'accepted' if st == 'ok' else 'rejected'}")
         obs["nontrivial"] = True
-    elif kind == "obs_sep":
+    elif kind == "sep":
         mesh = df.Mesh(p1=(0, 0, 0), p2=(3, 2, 1), n=(3, 2, 1))
-        f = df.Field(mesh, nvdim=3, value=(1, 2, 3), vdims=case["labels"], unit=case["unit"])
+        nv = case["nvdim"]
+        f = df.Field(mesh, nvdim=nv, value=tuple(range(1, nv + 1)) if nv > 1 else 1.0, vdims=case["labels"], unit=case["unit"])
         with tempfile.TemporaryDirectory(dir=TMPROOT) as d:
             path = os.path.join(d, "sep.omf")
-            f.to_file(path)
+            f.to_file(path, representation=case["rep"])
             st, g = read_file(path)
-        what = "label" if case["labels"] else "unit"
-        if st != "ok":
-            res = "read-raised"
-        elif what == "label":
-            res = "kept" if list(g.vdims) == case["labels"] else "changed"
+        if case["labels"]:
+            # labels are attribute names (field.<label>): punctuation other than '_' is outside the
+            # property's reading; what happens is recorded, not flagged
+            res = "read-raised" if st != "ok" else ("kept" if list(g.vdims) == case["labels"] else "changed")
+            obs["tags"].append(f"obs:punctuation-in-label:{res}")
         else:
-            res = "kept" if g.unit == case["unit"] else "changed"
-        obs["tags"].append(f"obs:separator-in-{what}:{res}")
+            # "any unit or none": the unit must come back
+            if st != "ok":
+                fail(f"field unit {case['unit']!r}: from_file raised {g} on the file just written")
+            elif g.unit != case["unit"]:
+                fail(f"field unit {g.unit!r} instead of {case['unit']!r} ({case['rep']}, {nv} components)")
+            obs["tags"].append("unit-outside-header-grammar")
+            obs["nontrivial"] = True
     elif kind == "big":
         rng = random.Random(case["sub"])
         n, nv = case["n"], case["nvdim"]
@@ -1238,9 +1242,16 @@ def nontrivial(case, obs):
     return bool(obs.get("nontrivial"))
 
 
+def unit_outside_grammar(u):
+    """units the `valueunits` header line cannot carry (finding D25)"""
+    return u is not None and (u == "" or u == "None" or ":" in u or any(ch.isspace() for ch in u))
+
+
 def known(case, text):
-    if case["kind"] in ("rt", "trunc_rt") and case.get("extend") and case.get("nvdim", 1) > 1 and "extend_scalar=True with a" in text:
-        return "D24"
+    # D25: a unit containing white space or ':', the string 'None', or the empty string comes back changed
+    if case["kind"] == "sep" and case.get("labels") is None and unit_outside_grammar(case.get("unit")) \
+            and text.startswith("field unit"):
+        return "D25"
     return None
 
 
